@@ -61,6 +61,35 @@ def c05(ctx):
                   exhaustive=True)
 
 
+# ----------------------------------------------------------------------------- C13
+ALL_SPELL = ["int", "int8", "int16", "int32", "int64", "uint", "uint8", "uint16", "uint32", "uint64"]
+
+
+def hdrgrid_cases(ctx):
+    if ctx.quick():
+        consts = dict(Structs=tlaset(["prot", "unprot", "sign1", "signsig", "nested"]), Spellings=tlaset(ALL_SPELL),
+                      PairSpellings=tlaset(["int", "int8", "int64", "uint16", "uint64"]))
+    else:
+        consts = dict(Structs=tlaset(["prot", "unprot", "sign1", "sig", "sign", "signsig", "nested"]), Spellings=tlaset(ALL_SPELL),
+                      PairSpellings=tlaset(ALL_SPELL))
+    return gen(ctx, "Gen_C13", cfgtext(invariants=["Emit"], constants=consts), timeout=3000, heap="8g")
+
+
+@prop("C13")
+def c13(ctx):
+    cases = hdrgrid_cases(ctx)
+    events = harness(ctx, ["exec", "hdrgrid"], cases)
+    rejects = judge(ctx, "Trace_C13", events)
+    return report(ctx, events, rejects,
+                  nontrivial=lambda e: e["enc"] == "ok" or e["dec"] == "ok",
+                  key=lambda e: (e["struct"], json.dumps(e["m"], sort_keys=True)),
+                  rule="TLC enumerates the header grid (labels x value kinds x bucket x Go integer spelling; pair cells for IV/Partial IV, "
+                       "crit/present label, duplicate labels under two Go types) embedded in every structure that has headers, and derives the wire "
+                       "image of each; the real encoder is run on the in-memory value and the real decoder on the image; TLC judges every event; "
+                       "non-trivial = accepted in at least one direction",
+                  exhaustive=True)
+
+
 def setup():
     ctx = Ctx("setup", "quick", 1)
     try:
